@@ -160,19 +160,15 @@ Fixpoint rel (st : bool) (v w : pyval) {struct v} : bool :=
                 | kv :: t, kv' :: t' => rel st (fst kv) (fst kv') && rel st (snd kv) (snd kv') && go t t'
                 | _, _ => false
                 end) kvs kvs'
-         | KCounter, KCounter =>                         (* Counter.__eq__ (3.10+): missing counts are 0 *)
+         | KCounter, KCounter =>
+             (* Counter.__eq__ (3.10+): all(self[e] == other[e] for c in (self, other) for e in c), a missing
+                count is 0 (keys are pairwise distinct, so "the" item with an equal key is unique) *)
              forallb (fun kv =>
-                        (fix find (r : list (pyval * pyval)) : bool :=
-                           match r with
-                           | [] => is_zero (snd kv)
-                           | kv' :: r' => if rel st (fst kv) (fst kv') then rel st (snd kv) (snd kv') else find r'
-                           end) kvs') kvs
+                        existsb (fun kv' => rel st (fst kv) (fst kv') && rel st (snd kv) (snd kv')) kvs'
+                        || (is_zero (snd kv) && negb (existsb (fun kv' => rel st (fst kv) (fst kv')) kvs'))) kvs
              && forallb (fun kv' =>
-                           (fix find (r : list (pyval * pyval)) : bool :=
-                              match r with
-                              | [] => is_zero (snd kv')
-                              | kv :: r' => if rel st (fst kv) (fst kv') then rel st (snd kv) (snd kv') else find r'
-                              end) kvs) kvs'
+                           existsb (fun kv => rel st (fst kv) (fst kv') && rel st (snd kv) (snd kv')) kvs
+                           || (is_zero (snd kv') && negb (existsb (fun kv => rel st (fst kv) (fst kv')) kvs))) kvs'
          | _, _ =>                                       (* dict.__eq__: same size, every item found *)
              Nat.eqb (length kvs) (length kvs')
              && forallb (fun kv => existsb (fun kv' => rel st (fst kv) (fst kv') && rel st (snd kv) (snd kv')) kvs') kvs
@@ -244,14 +240,15 @@ Definition is_strv (v : pyval) : bool := match v with PA (AStr _) => true | _ =>
 Definition is_maskedc (v : pyval) : bool := match v with PA AMasked => true | _ => false end.
 
 Definition dt_obj : str := s "|O".
-Definition dtype_class (d : str) : nat :=    (* by the kind character of dtype.str *)
+Definition dtype_class (d : str) : nat :=    (* by the kind character of dtype.str; 4 = object *)
+  if str_eqb d dt_obj then 4 else
   match d with
   | _ :: c :: _ =>
       if Ascii.eqb c "i"%char || Ascii.eqb c "u"%char then 0
       else if Ascii.eqb c "f"%char then 1
       else if Ascii.eqb c "b"%char then 2
       else if Ascii.eqb c "U"%char then 3
-      else if Ascii.eqb c "O"%char then 4 else 5
+      else 5
   | _ => 5
   end.
 Definition elem_ok (d : str) (v : pyval) : bool :=
@@ -285,7 +282,8 @@ Fixpoint wf (v : pyval) : bool :=
          | KBytearray => forallb is_byte l
          | KArray c => forallb (array_code_ok c) l
          | KNd m d sh =>
-             forallb (fun z => (0 <=? z)%Z) sh && (Z.of_nat (length l) =? zprod sh)%Z
+             negb (m && str_eqb d dt_obj)      (* masked arrays of objects: not modelled *)
+             && forallb (fun z => (0 <=? z)%Z) sh && (Z.of_nat (length l) =? zprod sh)%Z
              && forallb (fun x => (m && is_maskedc x) || elem_ok d x) l
          end
   | PSetv _ l => forallb wf l && forallb py_hashable l && nodup_by (rel false) l
